@@ -233,7 +233,8 @@ class OnceFamily(Family):
 
 register("C14", {
     "level": "fault_enumeration",
-    "rule": "per seeded base (HTTP/1.1 or HTTP/2, 1..3 concurrent callers of 1..2 requests, "
+    "rule": "per seeded base (HTTP/1.1 or HTTP/2, direct, through a tunnelling / forwarding "
+            "HTTP proxy or SOCKS5, 1..3 concurrent callers of 1..2 requests, "
             "retries in {0,1,3}): every fault kind x every network operation index, and for "
             "HTTP/2 GOAWAY with last-stream-id in {0, below, equal, above} x every request count x "
             "two delays, and RST_STREAM of each stream; oracle = per-call set of connections that "
